@@ -127,7 +127,6 @@ func (d *driver) amount(max *big.Int) (raw string, wf bool) {
 	return s, true
 }
 
-
 func (d *driver) credits(owner string, n int, zeroOK bool) []any {
 	out := []any{}
 	for i := 0; i < n; i++ {
@@ -167,6 +166,36 @@ func wfAmounts(m any, positive bool) bool {
 	}
 	walk(m)
 	return ok
+}
+
+// boundaryString returns a metadata string around the 256-BYTE limit and whether it
+// is within the limit (the limit is in bytes; multi-byte characters count fully).
+func (d *driver) boundaryString() (string, bool) {
+	rep := func(s string, n int) string {
+		out := ""
+		for i := 0; i < n; i++ {
+			out += s
+		}
+		return out
+	}
+	switch d.rng.Intn(8) {
+	case 0:
+		return "m1", true
+	case 1:
+		return rep("x", 256), true
+	case 2:
+		return rep("x", 257), false
+	case 3:
+		return rep("\u00e9", 128), true // 256 bytes
+	case 4:
+		return rep("\u00e9", 129), false // 129 characters, 258 bytes
+	case 5:
+		return rep("\u00e9", 200), false // 200 characters, 400 bytes
+	case 6:
+		return "", true
+	default:
+		return "regen:\u65e5\u672c.rdf", true
+	}
 }
 
 func optExp(set bool, t int) M { return M{"set": set, "t": t} }
@@ -370,6 +399,34 @@ func (d *driver) next(st *State) M {
 				raw = "0" + raw
 			}
 			m = M{"type": "Take", "owner": owner, "basket_denom": k["denom"], "amt": 0, "amt_tokens_raw": raw, "retire": d.rng.Intn(3) != 0}
+		}
+	case w >= 94: // metadata updates with strings at the length limit (256 BYTES), ASCII and not
+		meta, okLen := d.boundaryString()
+		switch k := d.rng.Intn(3); {
+		case k == 0 && len(st.Batches) > 0:
+			b := st.Batches[d.rng.Intn(len(st.Batches))]
+			who := b["issuer"].(string)
+			if d.rng.Intn(6) == 0 {
+				who = d.user()
+			}
+			m = M{"type": "UpdateBatchMetadata", "issuer": who, "batch_denom": b["denom"], "meta": meta, "wf": okLen && meta != ""}
+		case k == 1 && len(st.Projects) > 0:
+			p := st.Projects[d.rng.Intn(len(st.Projects))]
+			who := p["admin"].(string)
+			if d.rng.Intn(6) == 0 {
+				who = d.user()
+			}
+			m = M{"type": "UpdateProjectMetadata", "admin": who, "project_id": p["id"], "meta": meta, "wf": okLen}
+		case len(st.Classes) > 0:
+			c := st.Classes[d.rng.Intn(len(st.Classes))]
+			who := c["admin"].(string)
+			if d.rng.Intn(6) == 0 {
+				who = d.user()
+			}
+			m = M{"type": "UpdateClassMetadata", "admin": who, "class_id": c["id"], "meta": meta, "wf": okLen}
+		}
+		if m == nil {
+			return M{"type": "BeginBlock", "t": st.Now, "dom": "driver"}
 		}
 	default: // move coins / tokens between users
 		if len(st.Coins) > 0 && d.rng.Intn(3) == 0 {
